@@ -89,6 +89,11 @@ func Run(t *testing.T, seed uint64, prof *Profile, replay []core.Cmd, keepLog bo
 			w.main(replay)
 		})
 	}()
+	if prof.Prop == "C09" {
+		// in the HTTP profile the stored leaf and its issuers are what C09 states
+		sim.Reattribute(0, "C02", "C09")
+		sim.Reattribute(0, "C04", "C09")
+	}
 	if prof.Prop == "C06" {
 		// with several instances, append-only history and complete storage are
 		// part of C06's statement
@@ -478,6 +483,9 @@ func (w *World) exec(c core.Cmd) bool {
 			out = core.OutErrNot
 		}
 		w.apply(in, op.Inc, op.Kind, op.Key, p, out != core.OutErrNot)
+		if out != core.OutOK && op.Kind == "get" && op.Key == "_roots.pem" {
+			in.rootsFetchFailed = true
+		}
 		if out != core.OutOK {
 			err := error(errInjected)
 			if op.Ctx != nil && op.Ctx.Err() != nil {
@@ -612,8 +620,15 @@ func (w *World) doSubmit(in *Instance, it *Item, low bool, c core.Cmd) *Submissi
 		w.sim.Probe("evict.narrowed")
 	}
 	var s *Submission
-	if it.Chain != nil && w.prof.HTTP {
+	if it.Spec != nil && w.prof.HTTP {
+		want := w.expectAccept(in, it)
 		s = w.submitHTTP(in, it, c.L)
+		s.expectAccept = want
+		w.smu.Lock()
+		w.orc.admitted[it.Key]++
+		w.smu.Unlock()
+		s.rootTrusted = in.rootsMem[it.Spec.Root]
+		s.faultedPlan = len(c.L) > 0
 	} else {
 		s = w.submit(in, it, low, c.L)
 	}
